@@ -24,12 +24,13 @@ def bits_term(w):
 
 
 def machine_rows(desc):
-    doms = []
+    doms, datas = [], []
     for d in desc["doms"]:
         arch = "(mkArch %d %d %s %s %d %d %s %d %s)" % (d["Rsize"], d["R"], C.cq_N(d["N"]), C.cq_N(d["M"]), d["L"], d["O"],
                                                        C.cq_list([C.cq_string(n) + "%string" for n in d["Ops"] or []]), d["WordSize"], MODES.get(d["Mode"], "Ha"))
         doms.append("(%s, %s)" % (arch, C.cq_list([bits_term(w) for w in d["Rom"] or []])))
-    return "(%d, %s, %s)" % (desc["rsize"], C.cq_list(doms), simlib.topo_term(desc["topo"]))
+        datas.append(len(d.get("Data") or []))
+    return "(%d, %s, %s, %s)" % (desc["rsize"], C.cq_list(doms), simlib.topo_term(desc["topo"]), C.cq_list([str(x) for x in datas]))
 
 
 def unfit_sources(rnd):
@@ -68,8 +69,10 @@ def run(res, a):
         for f in sorted(glob.glob(os.path.join(C.VERIF, "corpus/basm/*.basm"))):
             jobs.append(lambda f=f: basm_json("basm:" + os.path.basename(f), [f], ["-disable-dynamical-matching"]))
             jobs.append(lambda f=f: basm_json("basm-chooser:" + os.path.basename(f), [f], ["-chooser-min-word-size"]))
+        expected = {}
         for k in range(12 if a.tier == "quick" else 150):
             s = c05.gen_source(rnd)
+            expected["basm:generated%d" % k] = s
             p = os.path.join(work, "gen%d.basm" % k)
             open(p, "w").write(s["text"])
             jobs.append(lambda p=p, k=k: basm_json("basm:generated%d" % k, [p], ["-disable-dynamical-matching"]))
@@ -129,6 +132,14 @@ def run(res, a):
         if d.get("err"):
             viol.append(("the emitted machine %s cannot be loaded: %s" % (n, d["err"]), {"origin": n}))
             continue
+        if n in expected:
+            e = expected[n]
+            got_bonds = sorted(b[1] for b in d["topo"]["bonds"])
+            if (d["topo"]["inputs"], d["topo"]["outputs"]) != (e["bm_in"], e["bm_out"]) or got_bonds != e["bonds"]:
+                viol.append(("machine from %s has %d inputs, %d outputs and bonds %s; its source declares %d inputs, %d outputs and connections %s"
+                             % (n, d["topo"]["inputs"], d["topo"]["outputs"], got_bonds, e["bm_in"], e["bm_out"], e["bonds"]),
+                             {"origin": n, "source": e["text"]}))
+                continue
         rows.append(machine_rows(d))
         metas.append((n, d, js))
     bodies = []
@@ -136,8 +147,9 @@ def run(res, a):
     for i in range(0, len(rows), shard):
         bodies.append("From Coq Require Import List NArith Bool Arith String.\nFrom BM Require Import Base.Bits Isa.Encode Net.Topo Front.Wf.\n"
                       "From BMGen Require Import GenLayout.\nImport ListNotations.\n"
-                      "Definition diag (x : nat * list (arch * list bstr) * bm) : list nat :=\n"
-                      "  let '(rs, doms, t) := x in\n"
+                      "Definition diag (x : nat * list (arch * list bstr) * bm * list nat) : list nat :=\n"
+                      "  let '(rs, doms, t, datas) := x in\n"
+                      "  flat_map (fun dn => if List.length (snd (fst dn)) + snd dn <=? 2 ^ obits (fst (fst dn)) then [] else [6]) (combine doms datas) ++\n"
                       "  (if wf_bmb t then [] else [1]) ++\n"
                       "  flat_map (fun d => (if sorted_strict (ops (fst d)) then [] else [2]) ++ (if forallb (wf_word table (fst d)) (snd d) then [] else [3]) ++\n"
                       "                     (if List.length (snd d) <=? 2 ^ obits (fst d) then [] else [4]) ++ (if Nat.eqb (rsize (fst d)) rs then [] else [5])) doms ++\n"
@@ -146,7 +158,7 @@ def run(res, a):
     k = 0
     names = {1: "the bond graph is not well formed", 2: "an opcode list is not sorted and duplicate-free", 3: "a ROM word has the wrong width or does not decode "
              "to an in-range instruction of its processor", 4: "a ROM is larger than 2^O", 5: "a domain's register size differs from the machine's",
-             9: "wf_bondmachine is false"}
+             6: "a ROM cannot hold its program and data words (more than 2^O)", 9: "wf_bondmachine is false"}
     hist = {}
     for o in C.eval_cases_parallel("C16", bodies, timeout=3000):
         for codes in o["M"]:
